@@ -1395,6 +1395,82 @@ def close_race_probe():
     return report
 
 
+SIG_UNFRAMEABLE = "C12:unframeable-datum-drained-by-other-thread"
+
+
+def known_probes(ctx):
+    """The listed finding, reproduced on the real `_send` / `Channel.send` of the tree every run (real threads,
+    real lock, events): thread U is inside the transport write; thread T queues a request that cannot be put on the
+    wire and a small one and returns; when U drains T's first datum a NON-FATAL exception leaves Channel.send -
+    injected by the stream (struct.error, as FRAME_HEADER.pack raises for a frame of 4 GiB or more; the real 4.2 GiB
+    case is fixes/C12-unframeable-datum-strands-queue.demo.py --real) and the stream stays open."""
+    import struct
+    import threading
+    _Connection, _Channel, brine, consts = rpyc_parts()
+    marker = b"UNFRAMEABLE-DATUM"
+
+    class Stream:
+        MAX_IO_CHUNK = 64000
+
+        def __init__(self):
+            self.closed, self.entered, self.go, self.n, self.accepted = False, threading.Event(), threading.Event(), 0, 0
+
+        def write(self, data):
+            self.n += 1
+            if self.n == 1:
+                self.entered.set()
+                self.go.wait(10)
+            if marker in bytes(data):
+                raise struct.error("'L' format requires 0 <= number <= 4294967295")    # the stream is NOT closed
+            self.accepted += 1
+
+        def close(self):
+            self.closed = True
+
+    try:
+        st = Stream()
+        conn = make_connection(st)
+        out = {}
+
+        def sender_u():
+            try:
+                conn._send(consts.MSG_REQUEST, 1, "u")
+                out["U"] = "returned"
+            except Exception as ex:  # noqa
+                out["U"] = "raised %s" % type(ex).__name__
+
+        tu = threading.Thread(target=sender_u, daemon=True)
+        tu.start()
+        st.entered.wait(10)
+        for seq, payload in ((2, marker), (3, "third")):
+            try:
+                conn._send(consts.MSG_REQUEST, seq, payload)
+                out["T%d" % seq] = "returned"
+            except Exception as ex:  # noqa
+                out["T%d" % seq] = "raised %s" % type(ex).__name__
+        st.go.set()
+        tu.join(10)
+        left = []
+        for d in list(conn._send_queue):
+            try:
+                left.append(brine.load(d)[1])
+            except Exception:  # noqa
+                left.append("?")
+        lock_held = conn._sendlock.locked()
+        conn._closed = True
+        reproduces = (bool(left) and not st.closed and not lock_held and not tu.is_alive()
+                      and out.get("T2") == "returned" and out.get("T3") == "returned")
+        text = ("signature=%s a non-fatal exception out of Channel.send (struct.error: frame of 4 GiB or more) while the "
+                "lock holder drains another thread's datum: holder U %s, issuer T %s / %s, request(s) %s left queued, "
+                "stream closed=%s, lock held=%s, packets accepted=%d: %s"
+                % (SIG_UNFRAMEABLE, out.get("U"), out.get("T2"), out.get("T3"), left, st.closed, lock_held, st.accepted,
+                   "a message is stranded on a live connection with every sender returned" if reproduces
+                   else "does not reproduce"))
+    except Exception as ex:  # noqa
+        reproduces, text = False, "signature=%s probe could not run: %s" % (SIG_UNFRAMEABLE, type(ex).__name__)
+    return [(SIG_UNFRAMEABLE, reproduces, text)]
+
+
 # ---------------------------------------------------------------------------------------------- direct oracle
 def oracle(run, res):
     """None if the property holds on this schedule of the real code, else (description, signature).
